@@ -110,6 +110,19 @@ def build_program(p):
     defs.append({"k": "struct", "name": "S1", "fields": s1, "ann": decl})
     for i in range(2, p["defs"] + 1):
         defs.append({"k": "struct", "name": "S%d" % i, "fields": [idl.F(1, "default", idl.T("i32"), "a")]})
+    if p.get("req", 0) > 0:
+        defs.append({"k": "struct", "name": "R",
+                     "fields": [idl.F(i, "required", idl.T("i32"), "r%d" % i) for i in range(1, p["req"] + 1)]})
+    if p.get("wide", 0) > 0:
+        defs.append({"k": "struct", "name": "W",
+                     "fields": [idl.F(i, "optional", idl.T("i32"), "w%d" % i) for i in range(1, p["wide"] + 1)]})
+    if p.get("evals", 0) > 0:
+        defs.append({"k": "enum", "name": "BigE",
+                     "values": [{"name": "V%d" % i, "value": i} for i in range(1, p["evals"] + 1)]})
+    if p.get("funcs", 0) > 0:
+        defs.append({"k": "service", "name": "Wide", "extends": None,
+                     "functions": [{"name": "g%d" % i, "oneway": False, "ret": None, "args": [], "throws": None}
+                                   for i in range(1, p["funcs"] + 1)]})
     if p["mapConst"] > 0:
         defs.append({"k": "const", "name": "CM", "type": idl.T("map", idl.T("string"), idl.T("i32")),
                      "value": map_val(p["mapConst"]), "ann": decl})
@@ -130,9 +143,12 @@ def main_go_path(p):
 def derived_keys(prog, cfg):
     """key counts per site re-derived from the concrete program (independent of the spec's KeyCount)."""
     m = prog["files"][0]
-    decl, memb, cmap, dmap, throws = [0], [0], [0], [0], [0]
+    decl, memb, cmap, dmap, throws, req, members = [0], [0], [0], [0], [0], [0], [0]
     for d in m["defs"]:
         decl.append(len(d.get("ann") or []))
+        members.append(len(d.get("fields") or d.get("values") or d.get("functions") or []))
+        if d["k"] in ("struct", "union", "exception"):
+            req.append(sum(1 for f in d["fields"] if f.get("req") == "required"))
         if d["k"] == "const" and "m" in d["value"]:
             cmap.append(len(d["value"]["m"]))
         for f in d.get("fields", []):
@@ -151,6 +167,7 @@ def derived_keys(prog, cfg):
     k = {"refl.ann.decl": max(decl), "refl.ann.member": max(memb), "refl.namespaces": len(m["namespaces"]),
          "refl.includes": len(m["includes"]), "refl.constmap": max(cmap), "refl.defaultmap": max(dmap),
          "go.constmap": max(cmap), "go.defaultmap": max(dmap), "go.throws": max(throws), "go.tags": max(memb),
+         "fastgo.required": max(req), "go.members": max(members), "fastgo.fields": max(members),
          "plugin.names": len(m["defs"]), "plugin.ast": len(m["defs"]), "dfs.includes": len(m["includes"]),
          "persist.jobs": len(prog["files"]) if cfg["recursive"] else 1}
     return k
@@ -509,6 +526,12 @@ MC_RUNS = {
 }
 
 
+def is_low(p):
+    """mirror of MC_Determinism!ProgsW1Low"""
+    return (all(p[f] != 8 for f in ("ann", "ns", "mapConst", "mapDefault", "inc", "defs", "exc"))
+            and p.get("wide", 0) == 0 and p.get("evals", 0) == 0 and p.get("funcs", 0) == 0 and p.get("req", 0) != 20)
+
+
 def model_check(ctx, cases_by_key):
     """step 1: the two-execution machine.  Layer A: Deterministic.  Layers B (thriftgo as it is) and P (thriftgo at the
     pinned commit): TLC finds diverging executions exactly for the pairs the layer's table calls leaky, in exactly the
@@ -538,7 +561,7 @@ def model_check(ctx, cases_by_key):
                 raise vlib.MachineryError("model inconsistency (layer %s): TLC diverges in %s but the table says %s for %s %s" % (
                     r["layer"], sorted(objs), sorted(want), cn, pk))
         for (cn, pk), c in cases_by_key.items():
-            if r["progs"] == "ProgsW1Low" and 8 in [c["p"][f] for f in ("ann", "ns", "mapConst", "mapDefault", "inc", "defs")]:
+            if r["progs"] == "ProgsW1Low" and not is_low(c["p"]):
                 continue
             if CFG_NAMES[r["cfgs"]] is not None and cn not in CFG_NAMES[r["cfgs"]]:
                 continue
@@ -616,13 +639,13 @@ def check_vacuity(cases):
     """the generated universe must contain what the property is about"""
     reached_sites = {r_["site"] for c in cases for r_ in c["reached"]}
     need = {"refl.ann.decl", "refl.ann.member", "refl.namespaces", "refl.includes", "refl.constmap",
-            "refl.defaultmap", "go.imports", "go.stdlibs", "go.throws", "fastgo.imports", "fastgo.fields",
+            "refl.defaultmap", "go.imports", "go.stdlibs", "go.throws", "fastgo.imports", "fastgo.fields", "fastgo.required",
             "fm.replacer", "plugin.names", "persist.jobs"}
     if not need <= reached_sites:
         raise vlib.MachineryError("vacuous universe: sites never reached: %s" % sorted(need - reached_sites))
     for s in need:
         ks = {r_["keys"] for c in cases for r_ in c["reached"] if r_["site"] == s}
-        if max(ks) < 8 and s not in ("go.throws",):
+        if max(ks) < 8:
             raise vlib.MachineryError("vacuous universe: site %s never walked with >= 8 keys" % s)
     if not any(not c["risky"] for c in cases):
         raise vlib.MachineryError("vacuous universe: no non-risky control case")
@@ -779,8 +802,10 @@ def run(ctx, args):
         rule="cases = TLC-enumerated (program feature vector, configuration) pairs: the least program, every single "
              "deviation per feature dimension (annotations per node 1/2/8 on declarations/members, namespaces 0/2/8, "
              "map constant entries 1/2/8, map default entries 2/8, includes 1/2/2-diamond/8, services x exceptions, "
-             "definitions 3/8, all definition kinds), in thorough also every pair of deviations (for three configurations), "
-             "and the program with everything, times the configurations (quick: 13; thorough: also every single core "
+             "definitions 3/8, all definition kinds, 12/20 required fields in one struct, 20 optional fields, 12 enum "
+             "values, 12 functions, 8 thrown exceptions), in thorough also every pair of deviations (for three configurations), "
+             "and the program with everything, times the configurations (quick: 13, of which go+reflection/patch and "
+             "fastgo+no_fmt get every single deviation and the other 11 the strongest level of each; thorough: also every single core "
              "option, every pair of core options, plugin / recursion / fastgo variants, and 21 further options on the "
              "strongest deviations only); each executed %d times (GOMAXPROCS 1/2/16; fresh, re-used and "
              "garbage-filled output directory). distinct class = (backend, options, plugin, recursion, set of "
